@@ -337,7 +337,10 @@ def traceStr (c : Case) (isPrefix : Bool) (inp : List Nat) : String :=
   streamStr c r.1 ++ " | " ++ " ".intercalate (r.2.map evStr)
 
 def specPStr (c : Case) (inp : List Nat) : String :=
-  if c.hasLook then "LOOK" else
+  if c.hasLook then
+    (match c.table with
+     | some _ => streamStr c (LK.specLexPC (LK.oracleFast c.lookM) c.prios.toList c.resL c.cb c.utf8 inp)
+     | none => "LOOK") else
   streamStr c (specLexP c.prios.toList c.res c.cb c.utf8 inp)
 
 /-! ## predicted rendering of the generated code (Emit.lean) -/
